@@ -1,8 +1,9 @@
 //! C15: drive the whole public API over (possibly ill-formed) values under `catch_unwind`, with the
 //! cfg(roaring_verif) bounds recorders draining after every sweep. Panics are allowed; a fired site
 //! assertion (`viol > 0`) is the violation.
-use super::*;
+use super::{parse_hex, slot, HResult, State};
 use roaring::MultiOps;
+use roaring::RoaringBitmap;
 use std::panic::{catch_unwind, AssertUnwindSafe};
 
 #[cfg(roaring_verif)]
